@@ -507,10 +507,36 @@ func runC17(rc *RunCtx) {
 				ne = nd
 			}
 			from := disk.LogLen()
-			_, err, inj := do(Req{Op: logical.UpdateOperation, Path: "transit/keys/" + k.name + "/config", Token: h.Root,
-				Data: map[string]any{"min_decryption_version": nd, "min_encryption_version": ne, "deletion_allowed": true}}, failK())
-			note("config %s min_dec=%d min_enc=%d -> %v (injected=%v)", k.name, nd, ne, err == nil, inj)
+			cfgData := map[string]any{"min_decryption_version": nd, "min_encryption_version": ne, "deletion_allowed": true}
+			// a quarter of the config requests carry, next to valid version
+			// bounds, a field the handler validates later and refuses: the
+			// request as a whole must change nothing
+			mustRefuse := ""
+			if fz == nil && tp.Pick(4) == 0 {
+				switch tp.Pick(3) {
+				case 0:
+					cfgData["min_encryption_version"] = k.latest + 2
+					mustRefuse = "min_encryption_version above latest"
+				case 1:
+					cfgData["auto_rotate_period"] = "10m"
+					mustRefuse = "auto_rotate_period below one hour"
+				default:
+					cfgData["auto_rotate_period"] = "not-a-duration"
+					mustRefuse = "unparsable auto_rotate_period"
+				}
+			}
+			_, err, inj := do(Req{Op: logical.UpdateOperation, Path: "transit/keys/" + k.name + "/config", Token: h.Root, Data: cfgData}, failK())
+			note("config %s min_dec=%d min_enc=%d %s -> %v (injected=%v)", k.name, nd, ne, mustRefuse, err == nil, inj)
 			oldDec := k.minDec
+			if mustRefuse != "" && err == nil {
+				s.Probe("invalid_config_accepted") // validation rules themselves are not this property's business
+				if cfgData["min_encryption_version"] != ne {
+					ne = toInt(cfgData["min_encryption_version"])
+				}
+			}
+			if mustRefuse != "" && err != nil {
+				s.Probe("config_with_invalid_field_refused")
+			}
 			if err != nil {
 				if !inj {
 					s.Probe("config_refused")
